@@ -47,8 +47,10 @@ from pyccolo.emit_event import (
     _emit_event,
     _file_passes_filter_for_event,
     _file_passes_filter_impl,
+    _main_thread_id,
     _should_instrument_file,
     _should_instrument_file_impl,
+    _switches,
 )
 from pyccolo.extra_builtins import (
     EMIT_EVENT,
@@ -1099,32 +1101,69 @@ class _InternalBaseTracer(_InternalBaseTracerSuper, metaclass=MetaTracerStateMac
         return NotImplemented
 
     def _sys_tracer(self, frame: FrameType, evt: str, arg: Any, **__):
+        # System events do not go through emit_event's loop over the tracer stack: the thread rule and the
+        # reentrancy rule of that loop are applied here, so that a handler of this kind is a running handler
+        # like any other, and is not entered under one.
+        if (
+            threading.current_thread().ident != _main_thread_id
+            and not self.multiple_threads_allowed
+        ):
+            return None
+        is_reentrant = not _switches.allow_event_handling
+        if (
+            is_reentrant
+            and not self.allow_reentrant_events
+            and not _switches.allow_reentrant_event_handling
+        ):
+            return None
         if not self._file_passes_filter_impl(evt, frame.f_code.co_filename):
             return None
         if evt == "call" and frame.f_code.co_filename == self.defined_file:
             func_name = frame.f_code.co_name
             if func_name in self._handler_names and not self.allow_reentrant_events:
                 return None
-
-        if self._has_fancy_sys_tracing and evt == "call":
-            orig_trace_lines = frame.f_trace_lines  # type: ignore
-            orig_trace_opcodes = frame.f_trace_opcodes  # type: ignore
-            frame.f_trace_lines = (  # type: ignore
-                TraceEvent.line not in self.events_with_registered_handlers
+        reentrant_handlers_only = (
+            is_reentrant and not _switches.allow_reentrant_event_handling
+        )
+        orig_allow_event_handling = _switches.allow_event_handling
+        orig_allow_reentrant_event_handling = _switches.allow_reentrant_event_handling
+        _switches.allow_event_handling = False
+        try:
+            if self._has_fancy_sys_tracing and evt == "call":
+                orig_trace_lines = frame.f_trace_lines  # type: ignore
+                orig_trace_opcodes = frame.f_trace_opcodes  # type: ignore
+                frame.f_trace_lines = (  # type: ignore
+                    TraceEvent.line not in self.events_with_registered_handlers
+                )
+                frame.f_trace_opcodes = (  # type: ignore
+                    TraceEvent.opcode in self.events_with_registered_handlers
+                )
+                try:
+                    # the value of a 'call' event is the frame's local trace function: by default the
+                    # tracer's own (the frame is traced); Null leaves it untraced, a callable replaces it
+                    return self._emit_event(
+                        evt,
+                        None,
+                        frame,
+                        reentrant_handlers_only=reentrant_handlers_only,
+                        ret=self.sys_tracer,
+                    )
+                finally:
+                    frame.f_trace_lines = orig_trace_lines  # type: ignore
+                    frame.f_trace_opcodes = orig_trace_opcodes  # type: ignore
+            else:
+                return self._emit_event(
+                    evt,
+                    None,
+                    frame,
+                    reentrant_handlers_only=reentrant_handlers_only,
+                    ret=arg,
+                )
+        finally:
+            _switches.allow_event_handling = orig_allow_event_handling
+            _switches.allow_reentrant_event_handling = (
+                orig_allow_reentrant_event_handling
             )
-            frame.f_trace_opcodes = (  # type: ignore
-                TraceEvent.opcode in self.events_with_registered_handlers
-            )
-            try:
-                # the value of a 'call' event is the frame's local trace function: by default the
-                # tracer's own (the frame is traced); Null leaves it untraced, a callable replaces it
-                ret = self._emit_event(evt, None, frame, ret=self.sys_tracer)
-            finally:
-                frame.f_trace_lines = orig_trace_lines  # type: ignore
-                frame.f_trace_opcodes = orig_trace_opcodes  # type: ignore
-            return ret
-        else:
-            return self._emit_event(evt, None, frame, ret=arg)
 
     if TYPE_CHECKING:
         TracerT = TypeVar("TracerT", bound="_InternalBaseTracer")
